@@ -39,6 +39,13 @@ def gen_ops(rng, model):
     if shared and rng.random() < 0.5:
         for s, e in rng.choice(shared)[:2]:
             ovr.append(['override', s, e['key'], rng.randint(0, 4), replacement_value(rng, s, e)] if rng.random() < 0.75 else ['remove', s, e['key'], rng.randint(0, 4)])
+    # the same item removed twice / overridden twice / overridden and removed, with the same or another spelling of its key
+    if items and rng.random() < 0.25:
+        s, e = rng.choice(items); sp = rng.randint(0, 4); sp2 = sp if rng.random() < 0.6 else rng.randint(0, 4)
+        kind = rng.choice(['rr', 'oo', 'or'])
+        if kind == 'rr': ovr += [['remove', s, e['key'], sp], ['remove', s, e['key'], sp2]]
+        elif kind == 'oo': ovr += [['override', s, e['key'], sp, replacement_value(rng, s, e)], ['override', s, e['key'], sp2, replacement_value(rng, s, e)]]
+        else: ovr += [['override', s, e['key'], sp, replacement_value(rng, s, e)], ['remove', s, e['key'], sp2]]
     # remove an item and add it back with another value; the same addition given twice
     if items and rng.random() < 0.2:
         s, e = rng.choice(items)
@@ -87,8 +94,8 @@ def model_expr(case, T):
     f = sc.coq_rawfile(case['model'], T)
     adds = core.coq_list([coq_op(o, T) for o in case['adds']])
     if case['route'] == 'cli':
-        ov = core.coq_list(['(%d, %s)' % (o[3], coq_op(o, T)) for o in case['ovr'] if o[0] == 'override'])
-        rm = core.coq_list(['(%d, %s)' % (o[3], coq_op(o, T)) for o in case['ovr'] if o[0] == 'remove'])
+        ov = core.coq_list([coq_op(o, T) for o in case['ovr'] if o[0] == 'override'])
+        rm = core.coq_list([coq_op(o, T) for o in case['ovr'] if o[0] == 'remove'])
         ops = '(cli_ops %s %s %s)' % (ov, rm, adds)
     else:
         ops = '(%s ++ %s)' % (core.coq_list([coq_op(o, T) for o in case['ovr']]), adds)
